@@ -29,6 +29,28 @@ class Truth:
         level = [(t0 + i * dt, v) for i, v in enumerate(self.level) if i not in self.removed]
         return rain, et, level
 
+    def add_stray(self, rng, et_value=0.6):
+        """append a storm lifting the level far above everything else, one light-rain step and a short dry
+        spell: an interstorm interval sharing no level with the others (left out of the recession curve),
+        with its own evapotranspiration"""
+        n0 = len(self.level)
+        et_full = [self.et[i % len(self.et)] for i in range(n0 + 2)]
+        lift = 150.0 + float(rng.randint(0, 40))
+        base = max(self.level) + lift
+        self.rain[n0 - 1] = self.sy * (base - self.level[-1]) * 3600.0 / self.dt
+        self.level.append(base)
+        self.rain.append(0.25)
+        k = rng.randint(4, 8)
+        for i in range(k):
+            self.level.append(base - 1.0 - i)
+            self.rain.append(0.0)
+        self.rain = self.rain[:len(self.level)]
+        while len(self.rain) < len(self.level):
+            self.rain.append(0.0)
+        self.et = et_full[:n0] + [et_value] * (len(self.level) + 2 - n0)
+        self.events.append(("stray", k, None))
+        return self
+
     def add_gap(self, rng):
         """drop two consecutive level samples inside a dry spell: two gap-free stretches"""
         n = len(self.level)
